@@ -6,6 +6,10 @@ NoChoices == <<>>
 \* validator 3 leaves (no weight, no slot) / re-weighting with a re-ordered generator list
 Choices3 == << [pcT |-> 2, certT |-> 2, w |-> <<1, 1, 0>>, gens |-> <<2, 1>>],
                [pcT |-> 3, certT |-> 3, w |-> <<2, 1, 1>>, gens |-> <<3, 1, 2>>] >>
+\* four validators, validator 4 Byzantine: re-weighting with a re-ordered generator list (Byzantine weight 1/5) / the Byzantine
+\* validator leaves (it comes back when the other choice follows): its weight stays below one third throughout
+Choices4 == << [pcT |-> 3, certT |-> 3, w |-> <<2, 1, 1, 1>>, gens |-> <<2, 4, 1, 3>>],
+               [pcT |-> 2, certT |-> 2, w |-> <<1, 1, 1, 0>>, gens |-> <<3, 1, 2>>] >>
 \* the script is a history variable: two behaviours reaching the same network state are one state
 NetView == <<blocks, tip, fin, recv, banned, maxGen, lastSlot, Len(script)>>
 =============================================================================
